@@ -260,9 +260,9 @@ new.append(entry("C11", level="other",
     scope=[r"^uhppote\.\(\*uhppote\)\.GetDevices#", r"^uhppote\.\(\*ut0311\)\.Broadcast\$1#", r"^messages\.lemma(DecodeGetDeviceResponse|RoundTripGetDeviceRequest)#"],
     pinned_file="pins_uhppote.json", pinned_labels=["contract", "macro"],
     assumptions=COMMON_ASSUME + ["driver.Broadcast (interface contract): one discovery request handed to the driver; what it returns is logged as the datagrams of this call in arrival order (ghost recv.*), and is memory that exists (allocated); its implementation ut0311.Broadcast and the collector goroutine are verified against their own contracts (C09)"],
-    not_decided=["per entry, the address fields (IP address, subnet mask, gateway, MAC address) as bytes of ITS datagram: with them the loop invariants of the mapping loop need the 20 s limit on some paths (they hold and were discharged in experiments, but not robustly); decided per entry: serial number, firmware version and date; the address fields are decided for one reply (lemmaDecodeGetDeviceResponse, and the same mapping in GetDevice under C02)",
+    not_decided=["at this level nothing of an entry is left undecided (`addr`: the completed address is the IPv4 address of the entry's own datagram with the broadcast port); what remains outside is how the datagrams get into the log (the collector goroutine's interleaving with the caller, C08/C09)",
                  "'received before the timeout' is the driver's side (C09)"],
-    explanation="GetDevices is verified with broadcast() and the reflective codec executed in place (loop invariants for both loops): the reply collector of ut0311.Broadcast (goroutine body) keeps every collected datagram in a buffer of its own (pairwise distinct blocks: a later datagram cannot change an earlier reply); exactly one discovery request (function 0x94, serial 0, zero elsewhere) is handed to driver.Broadcast, addressed to the configured broadcast address (255.255.255.255:60000 by default); the call fails only if the driver fails - a wrong-length or undecodable datagram never makes it fail (`total`). EXACTNESS: the datagrams the driver returned are logged in arrival order (ghost recv.len / recv.bytes); disc.ok(b, n) says that a datagram decodes as a get-device reply (64 bytes, protocol id, function code 0x94, BCD date), disc.count counts such datagrams by recursion, disc.sel(k) is the position of the k-th of them. `exact`: the result has exactly disc.count entries - one for each well-formed reply, nothing for a malformed datagram, and a malformed datagram hides nothing after it. `entries`: entry k carries the serial number, firmware version and date decoded from datagram disc.sel(k) - its own reply, in arrival order, duplicates included. Every entry's address carries the broadcast port (60000 by default) and the name of the matching configured controller (`ports`, `names`); no run-time panic, including the type assertion on the decoded replies. Level 'other': per-entry address bytes are not decided at this level."))
+    explanation="GetDevices is verified with broadcast() and the reflective codec executed in place (loop invariants for both loops): the reply collector of ut0311.Broadcast (goroutine body) keeps every collected datagram in a buffer of its own (pairwise distinct blocks: a later datagram cannot change an earlier reply); exactly one discovery request (function 0x94, serial 0, zero elsewhere) is handed to driver.Broadcast, addressed to the configured broadcast address (255.255.255.255:60000 by default); the call fails only if the driver fails - a wrong-length or undecodable datagram never makes it fail (`total`). EXACTNESS: the datagrams the driver returned are logged in arrival order (ghost recv.len / recv.bytes); disc.ok(b, n) says that a datagram decodes as a get-device reply (64 bytes, protocol id, function code 0x94, BCD date), disc.count counts such datagrams by recursion, disc.sel(k) is the position of the k-th of them. `exact`: the result has exactly disc.count entries - one for each well-formed reply, nothing for a malformed datagram, and a malformed datagram hides nothing after it. `entries`, `ip`, `mask`, `gateway`, `mac`: entry k carries the serial number, firmware version, date, IP address, subnet mask, gateway and MAC address decoded from datagram disc.sel(k) - its own reply, in arrival order, duplicates included. Every entry's address carries the broadcast port (60000 by default) and the name of the matching configured controller (`ports`, `names`); no run-time panic, including the type assertion on the decoded replies. Level 'other': per-entry address bytes are not decided at this level."))
 
 ids = {e["id"] for e in new}
 out = [p for p in props if p["id"] not in ids] + new
